@@ -1615,9 +1615,25 @@ LEVEL_NOTE = ('Trusted: Coq kernel + vm_compute; the AST translator and its NumP
 OCAML_UTILS = ['zio.ml']
 
 
-def _mk_base(rng, dtype, layout, kind):
+EXTRA_LAYOUTS = ['transposed', 'strided', 'reversed']      # theme 1: views that are neither C nor F nor a plain window
+COORD_KINDS = ['desc2', 'asc-frac', 'large']
+SHAPES = {'1x1': (1, 1), '1xN': (1, 5), 'Nx1': (5, 1), '2x2': (2, 2)}
+CHUNK_KINDS = ['irregular', 'onewide', 'single', 'rows1', 'samemax']
+
+
+def _mk_base(rng, dtype, layout, kind, shape=None, fill=None):
+    """-> the ndarray that OWNS the memory; _view_of(base, layout) is the array handed to the library"""
     import numpy as np
-    hh, ww = (H, W)
+    hh, ww = shape or (H, W)
+    if layout in EXTRA_LAYOUTS:
+        a = _mk_base(rng, dtype, 'C', kind, shape, fill)
+        if layout == 'transposed':
+            return np.ascontiguousarray(a.T)                 # handed over as base.T (F-contiguous view)
+        if layout == 'reversed':
+            return np.ascontiguousarray(a[::-1, ::-1])       # handed over as base[::-1, ::-1] (negative strides)
+        base = np.zeros((2 * hh, 3 * ww), dtype=a.dtype)     # handed over as base[::2, ::3]
+        base[::2, ::3] = a
+        return base
     big = layout == 'view'
     shape = (hh + 2, ww + 2) if big else (hh, ww)
     if kind in ('zones', 'izones'):
@@ -1638,19 +1654,39 @@ def _mk_base(rng, dtype, layout, kind):
         if rng.random() < 0.5:          # the named hard values: +-inf next to NaN
             a[rng.randrange(shape[0]), rng.randrange(shape[1])] = np.inf
             a[rng.randrange(shape[0]), rng.randrange(shape[1])] = -np.inf
+    if fill == 'allequal' or (fill == 'allnan' and a.dtype.kind != 'f'):
+        a[...] = 3
+    elif fill == 'allnan':
+        a[...] = np.nan
     return a
 
 
 def _view_of(base, layout):
     if layout == 'view':
         return base[..., 1:-1, 1:-1]
+    if layout == 'transposed':
+        return base.T if base.ndim == 2 else base.transpose(0, 2, 1)
+    if layout == 'strided':
+        return base[..., ::2, ::3]
+    if layout == 'reversed':
+        return base[..., ::-1, ::-1]
     return base
 
 
-def _mk_stack_base(rng, dtype, layout):
+def _mk_stack_base(rng, dtype, layout, shape=None):
     """3 layers, layer dimension FIRST (zonal.crosstab's 3-D values)"""
     import numpy as np
-    hh, ww = (H + 2, W + 2) if layout == 'view' else (H, W)
+    h0, w0 = shape or (H, W)
+    if layout in EXTRA_LAYOUTS:
+        a = _mk_stack_base(rng, dtype, 'C', shape)
+        if layout == 'transposed':
+            return np.ascontiguousarray(a.transpose(0, 2, 1))
+        if layout == 'reversed':
+            return np.ascontiguousarray(a[:, ::-1, ::-1])
+        base = np.zeros((3, 2 * h0, 3 * w0), dtype=a.dtype)
+        base[:, ::2, ::3] = a
+        return base
+    hh, ww = (h0 + 2, w0 + 2) if layout == 'view' else (h0, w0)
     vals = np.array([[[rng.randint(0, 5) for c in range(ww)] for r in range(hh)] for _l in range(3)])
     return np.array(vals, dtype=dtype, order='F' if layout == 'F' else 'C')
 
@@ -1658,49 +1694,91 @@ def _mk_stack_base(rng, dtype, layout):
 ATTRS_KINDS = ['res', 'nores', 'empty']
 
 
-def _aux_coords(ydim, xdim):
+def _aux_coords(ydim, xdim, h=None, w=None):
     """scalar, 1-D non-index and 2-D auxiliary coordinates every input raster carries"""
     import numpy as np
+    h, w = h or H, w or W
     return {'spatial_ref': 0, 'band': 1, 'time': np.datetime64('2020-01-02'),
-            'row_label': (ydim, np.arange(H) * 10), 'cell_id': ((ydim, xdim), np.arange(H * W).reshape(H, W))}
+            'row_label': (ydim, np.arange(h) * 10), 'cell_id': ((ydim, xdim), np.arange(h * w).reshape(h, w))}
 
 
-def _mk_raster(rng, dtype, layout, backend, kind='data', name='r', attrs_kind='res', dims_kind='yx', chunks=None):
+def _axis_coords(coords_kind, h, w):
+    """(y values, x values): theme 6 — descending/ascending, non-zero / negative origin, fractional, large, x != y spacing"""
+    import numpy as np
+    if coords_kind == 'asc-frac':
+        return -3.25 + np.arange(h, dtype='float64') * 0.5, 100.5 + np.arange(w, dtype='float64') * 1.5
+    if coords_kind == 'large':
+        return 5.0e6 - np.arange(h, dtype='float64') * 1.0e6, -2.0e6 + np.arange(w, dtype='float64') * 1.0e6
+    return np.arange(h, dtype='float64')[::-1] * 2.0, np.arange(w, dtype='float64') * 2.0
+
+
+def _chunks_for(chunks, h, w):
+    """theme 3: named chunkings -> explicit per-axis chunk tuples"""
+    if chunks is None or not isinstance(chunks, str):
+        return tuple(chunks or (3, 4))
+
+    def split(n, parts):
+        out = []
+        for p in parts:
+            if n <= 0:
+                break
+            out.append(min(p, n))
+            n -= out[-1]
+        if n > 0:
+            out.append(n)
+        return tuple(out)
+    if chunks == 'irregular':
+        return (split(h, (1, 2, 3)), split(w, (2, 5)))
+    if chunks == 'onewide':
+        return (1, 1)
+    if chunks == 'single':
+        return (h, w)
+    if chunks == 'rows1':
+        return (1, w)
+    if chunks == 'samemax-a':                 # same per-axis maximum, different splits
+        return (split(h, (3, 3)), split(w, (3, 4)))
+    if chunks == 'samemax-b':
+        return (split(h, (3, 3)), split(w, (4, 3)))
+    raise ValueError(chunks)
+
+
+def _mk_raster(rng, dtype, layout, backend, kind='data', name='r', attrs_kind='res', dims_kind='yx', chunks=None,
+               shape=None, fill=None, coords_kind='desc2'):
     """-> (DataArray, base ndarray that owns the memory).  attrs_kind: 'res' (valid res attribute), 'nores' (attrs
     without res: the cell size must be derived from the coordinates), 'empty' (no attrs at all)"""
     import numpy as np
     import xarray as xr
+    h, w = shape or (H, W)
     attrs = {'res': (2.0, 2.0), 'crs': 'EPSG:3857', 'nodatavals': [0.0], 'nested': {'a': [1, 2]}}
     if attrs_kind == 'nores':
         del attrs['res']
     elif attrs_kind == 'empty':
         attrs = {}
     ydim, xdim = ('y', 'x') if dims_kind == 'yx' else ('lat', 'lon')
+    ys, xs = _axis_coords(coords_kind, h, w)
     if kind == 'stack3':
-        base = _mk_stack_base(rng, dtype, layout)
+        base = _mk_stack_base(rng, dtype, layout, shape)
         arr = _view_of(base, layout)
         if layout == 'readonly':
             base.flags.writeable = False
         data = arr
         if backend == 'dask':
             import dask.array as da
-            data = da.from_array(arr, chunks=(3,) + tuple(chunks or (3, 4)))
+            data = da.from_array(arr, chunks=(3,) + tuple(_chunks_for(chunks, h, w)))
         agg = xr.DataArray(data, dims=['layer', ydim, xdim], name=name,
-                           coords=dict(_aux_coords(ydim, xdim), layer=np.array([10, 20, 30]),
-                                       **{ydim: np.arange(H, dtype='float64')[::-1] * 2.0,
-                                          xdim: np.arange(W, dtype='float64') * 2.0}), attrs=attrs)
+                           coords=dict(_aux_coords(ydim, xdim, h, w), layer=np.array([10, 20, 30]), **{ydim: ys, xdim: xs}),
+                           attrs=attrs)
         return agg, base
-    base = _mk_base(rng, dtype, layout, kind)
+    base = _mk_base(rng, dtype, layout, kind, shape, fill)
     arr = _view_of(base, layout)
     if layout == 'readonly':
         base.flags.writeable = False
     data = arr
     if backend == 'dask':
         import dask.array as da
-        data = da.from_array(arr, chunks=tuple(chunks or (3, 4)))
+        data = da.from_array(arr, chunks=_chunks_for(chunks, h, w))
     agg = xr.DataArray(data, dims=[ydim, xdim], name=name,
-                       coords=dict(_aux_coords(ydim, xdim), **{ydim: np.arange(H, dtype='float64')[::-1] * 2.0,
-                                                               xdim: np.arange(W, dtype='float64') * 2.0}),
+                       coords=dict(_aux_coords(ydim, xdim, h, w), **{ydim: ys, xdim: xs}),
                        attrs=attrs)
     return agg, base
 
@@ -1861,6 +1939,14 @@ def _registry():
         'convolution.calc_cellsize': one('convolution', 'calc_cellsize', raster='raster', out='none'),
         'utils.canvas_like': one('utils', 'canvas_like', raster='raster', extra=lambda r, v: {'width': 4}, backends=['numpy'], out='own'),
     }
+    reg['convolution.convolve_2d'] = dict(one('convolution', 'convolve_2d', raster='data', extra=lambda r, v: {'kernel': k3()},
+                                              out='own'), raw=True)
+    reg['convolution.custom_kernel'] = dict(mod='convolution', fn='custom_kernel', rasters=[], extra=lambda r, v: {'kernel': k3()},
+                                            variants=1, backends=BACKENDS, out='none')
+    reg['utils.bands_to_img'] = multi('utils', 'bands_to_img', [('r', 'data'), ('g', 'data'), ('b', 'data')], out='none')
+    reg['utils.color_values'] = one('utils', 'color_values', extra=lambda r, v: {'color_key': {1: 'red', 2: '#00ff00'}}, out='none')
+    reg['utils.lnglat_to_meters'] = dict(multi('utils', 'lnglat_to_meters', [('longitude', 'data'), ('latitude', 'data')], out='none'),
+                                         raw=True)
     reg['analytics.summarize_terrain'] = one('analytics', 'summarize_terrain', raster='terrain', out='none')
     reg['utils.get_dataarray_resolution'] = one('utils', 'get_dataarray_resolution', out='none')
     for fn, bands in [('arvi', ['nir_agg', 'red_agg', 'blue_agg']), ('evi', ['nir_agg', 'red_agg', 'blue_agg']),
@@ -1882,7 +1968,7 @@ def _registry():
 
 # functions whose UNCHANGED code rejects Dask-backed input (NotImplementedError / TypeError / Numba typing error):
 # still run on Dask (the inputs must be intact after the exception) but only once per function in the quick tier
-NO_DASK = {'experimental.polygonize.polygonize#mask', 'classify.natural_breaks', 'pathfinding.a_star_search', 'viewshed.viewshed', 'zonal.regions', 'zonal.trim',
+NO_DASK = {'utils.bands_to_img', 'utils.color_values', 'convolution.custom_kernel', 'experimental.polygonize.polygonize#mask', 'classify.natural_breaks', 'pathfinding.a_star_search', 'viewshed.viewshed', 'zonal.regions', 'zonal.trim',
            'zonal.crop', 'experimental.polygonize.polygonize'}
 
 
@@ -1912,11 +1998,56 @@ def _observe(case):
             # the other rasters of a multi-raster call get another dtype and memory layout
             dt = DTYPES[(DTYPES.index(dt) + 3 * ri) % len(DTYPES)]
             lo = LAYOUTS[(LAYOUTS.index(lo) + ri) % len(LAYOUTS)]
+        # theme stream: an extra memory layout for ONE argument position (or all), named chunkings, degenerate
+        # shapes / fills, other coordinate systems
+        if case.get('layoutx') and case.get('layoutpos') in (None, ri):
+            lo = case['layoutx']
+        ck = case.get('chunkkind')
+        if ck == 'samemax':
+            ck = 'samemax-b' if case.get('chunkpos') == ri else 'samemax-a'
+        elif ck is None and case.get('chunkpos') == ri:
+            ck = (2, 7)                 # one argument position (each in turn) is chunked differently from the others
+        shp = tuple(case['shape']) if case.get('shape') else None
         rasters[p], bases[p] = _mk_raster(rng, dt, lo, case['backend'], kind, name=p,
                                           attrs_kind=case.get('attrs', 'res'), dims_kind=case.get('dims', 'yx'),
-                                          # one argument position (each in turn) is chunked differently from the others
-                                          chunks=(2, 7) if case.get('chunkpos') == ri else None)
+                                          chunks=ck, shape=shp, fill=case.get('fill'),
+                                          coords_kind=case.get('coords', 'desc2'))
     extra = ent['extra'](rng, case['variant'])
+    # array-valued non-raster arguments (kernels, transforms) are argument positions too: give ONE of them the layout
+    arr_keys = [k for k in sorted(extra) if isinstance(extra[k], np.ndarray) and extra[k].ndim == 2]
+    if case.get('layoutx') and case.get('layoutpos') is not None and case['layoutpos'] >= len(ent['rasters']) and arr_keys:
+        k = arr_keys[(case['layoutpos'] - len(ent['rasters'])) % len(arr_keys)]
+        a = extra[k]
+        if case['layoutx'] == 'transposed':
+            extra[k] = np.ascontiguousarray(a.T).T
+        elif case['layoutx'] == 'reversed':
+            extra[k] = np.ascontiguousarray(a[::-1, ::-1])[::-1, ::-1]
+        else:
+            big = np.zeros((2 * a.shape[0], 3 * a.shape[1]), dtype=a.dtype)
+            big[::2, ::3] = a
+            extra[k] = big[::2, ::3]
+    # list-valued parameters given as numpy arrays of another dtype (theme 2): they must come back untouched as well
+    if case.get('arrparams'):
+        for k in ('bins', 'new_values', 'values', 'excludes', 'target_values', 'barriers', 'zones_ids', 'zone_ids', 'cat_ids'):
+            v = extra.get(k)
+            if isinstance(v, (list, tuple)) and len(v) and all(isinstance(x, (int, float)) for x in v):
+                extra[k] = np.array(v, dtype=['int64', 'float32', 'float64'][case['variant'] % 3]
+                                    if all(float(x).is_integer() for x in v if x == x) and not any(x != x for x in v) else 'float64')
+    # points given in coordinate units follow the raster's coordinate system
+    if (case.get('coords', 'desc2') != 'desc2' or case.get('shape')) and rasters:
+        r0 = rasters[ent['rasters'][0][0]]
+        ys, xs = r0[r0.dims[-2]].values, r0[r0.dims[-1]].values
+
+        def remap(pt):
+            row = int(round((len(ys) - 1) - float(pt[0]) / 2.0))
+            col = int(round(float(pt[1]) / 2.0))
+            return (float(ys[max(0, min(len(ys) - 1, row))]), float(xs[max(0, min(len(xs) - 1, col))]))
+        for k in ('start', 'goal'):
+            if k in extra:
+                y2, x2 = remap(extra[k])
+                extra[k] = type(extra[k])((y2, x2)) if not isinstance(extra[k], np.ndarray) else np.array([y2, x2])
+        if isinstance(extra.get('x'), float) and isinstance(extra.get('y'), float):
+            extra['y'], extra['x'] = remap((extra['y'], extra['x']))
     extra_snap = _copy.deepcopy({k: v for k, v in extra.items() if not callable(v)})
     snaps = {p: _snap_raster(rasters[p], bases[p]) for p in rasters}
     mod = importlib.import_module('xrspatial.' + ent['mod'])
@@ -1940,6 +2071,9 @@ def _observe(case):
                 res = f(ds, **extra)
             elif ent['fn'] == 'validate_arrays':
                 res = f(*[rasters[p] for p, _ in ent['rasters']])
+            elif ent.get('raw'):
+                # array-level public functions: the bare (NumPy / Dask) arrays are passed
+                res = f(**{p: rasters[p].data for p in rasters}, **extra)
             else:
                 res = f(**rasters, **extra)
     except Exception as e:            # a dtype/layout the function legitimately rejects: not a violation in itself
@@ -2012,7 +2146,7 @@ def _observe(case):
                 obs['shares'].append(p)
     obs['shares'] = sorted(set(obs['shares']))
     # write probe: fill the output, then look at the inputs again
-    if ent['out'] != 'window':
+    if ent['out'] not in ('window', 'none'):
         wrote = False
         for (what, arr) in outs[:64]:
             if isinstance(arr, np.ndarray) and arr.size and arr.flags.writeable:
@@ -2078,18 +2212,48 @@ def _observe_sequence(case):
                            attrs_kind=case.get('attrs', 'res'), dims_kind=case.get('dims', 'yx'))
     snap = _snap_raster(agg, base)
     obs = dict(case=case, steps=[])
-    for (fn, variant) in case['sequence']:
+    import xarray as xr
+    prev_out = None
+    for step in case['sequence']:
+        fn, variant = step[0], step[1]
+        derive = step[2] if len(step) > 2 else None
         ent = reg[fn]
         extra = ent['extra'](rng, variant)
         f = getattr(importlib.import_module('xrspatial.' + ent['mod']), ent['fn'])
+        # theme 4: the call is made on a raster DERIVED from the (already processed) one, or from the previous output
+        target, tbase = agg, base
+        yd, xd = agg.dims[-2], agg.dims[-1]
+        try:
+            if derive == 'slice':
+                target = agg[1:, 1:]
+            elif derive == 'assign_coords':
+                target = agg.assign_coords({xd: agg[xd] * 3.0})
+            elif derive == 'copy':
+                target = agg.copy(deep=False)
+            elif derive == 'astype':
+                target = agg.astype('float32')
+            elif derive == 'isel_rev':
+                target = agg.isel({yd: slice(None, None, -1)})
+            elif derive == 'prev_out' and isinstance(prev_out, xr.DataArray) and prev_out.ndim == 2:
+                target = prev_out
+        except Exception:             # noqa
+            target = agg
+        dsnap = _snap_raster(target, tbase) if target is not agg else None
         err = None
+        out = None
         try:
             with contextlib.redirect_stdout(io.StringIO()), contextlib.redirect_stderr(io.StringIO()):
-                f(**{ent['rasters'][0][0]: agg}, **extra)
+                out = f(**{ent['rasters'][0][0]: target}, **extra)
         except Exception as e:        # noqa
             err = type(e).__name__
-        d = _diff_raster(agg, base, snap, allow_widen=(fn == 'viewshed.viewshed'))
-        obs['steps'].append(dict(fn=fn, variant=variant, error=err, modified=d))
+        d = _diff_raster(agg, base, snap, allow_widen=(fn == 'viewshed.viewshed' and target is agg))
+        dd = []
+        if dsnap is not None:
+            dd = [x for x in _diff_raster(target, tbase, dsnap, allow_widen=(fn == 'viewshed.viewshed'))
+                  if not x.startswith(('values (the underlying', 'buffer dtype', 'writeable'))]
+        obs['steps'].append(dict(fn=fn, variant=variant, derive=derive, error=err, modified=d, derived_modified=dd))
+        if isinstance(out, xr.DataArray):
+            prev_out = out
     return obs
 
 
@@ -2193,7 +2357,82 @@ def gen_cases(ctx, only=None, full=False):
                           layout=rng.choice(LAYOUTS), attrs=rng.choice(ATTRS_KINDS), sequence=seq,
                           dims=rng.choice(['yx', 'yx', 'latlon']),
                           dataseed=rng.randrange(1 << 30)))
+    cases += gen_theme_cases(rng, reg, names, full, only)
     return cases
+
+
+DERIVES = ['slice', 'assign_coords', 'copy', 'astype', 'isel_rev', 'prev_out']
+
+
+def gen_theme_cases(rng, reg, names, full, only):
+    """appended streams (theme audit): extra memory layouts per argument position, named Dask chunkings, other coordinate
+    systems, degenerate shapes / fills, list parameters as arrays, call sequences over derived rasters"""
+    out = []
+    off = rng.randrange(1000)
+
+    def case(fn, be, dt, lo='C', **kw):
+        ent = reg[fn]
+        c = dict(kind='call', fn=fn, backend=be, dtype=dt, layout=lo, variant=rng.randrange(ent['variants']),
+                 attrs='res', dataseed=rng.randrange(1 << 30))
+        c.update(kw)
+        return c
+    for fi, fn in enumerate(names):
+        ent = reg[fn]
+        nr = len(ent['rasters'])
+        try:
+            ex0 = ent['extra'](random.Random(0), 0)
+            n_arr = len([k for k, v in ex0.items() if hasattr(v, 'ndim') and getattr(v, 'ndim', 0) == 2])
+        except Exception:             # noqa
+            n_arr = 0
+        npos = max(1, nr + n_arr)
+        dask_ok = ent.get('dask_ok', True)
+        if full:
+            for be in (BACKENDS if dask_ok else ['numpy']):
+                for li, lx in enumerate(EXTRA_LAYOUTS):
+                    for pos in list(range(npos)) + [None]:
+                        out.append(case(fn, be, DTYPES[(fi + li + (pos or 0)) % len(DTYPES)], layoutx=lx, layoutpos=pos,
+                                        arrparams=bool((li + (pos or 0)) % 2)))
+            if dask_ok:
+                for ci, ck in enumerate(CHUNK_KINDS):
+                    for pos in (range(nr) if ck == 'samemax' and nr > 1 else [0]):
+                        out.append(case(fn, 'dask', DTYPES[(fi + ci) % len(DTYPES)], LAYOUTS[(fi + ci) % 4], chunkkind=ck, chunkpos=pos))
+            for ci, ckd in enumerate(COORD_KINDS[1:]):
+                for be in (BACKENDS if dask_ok else ['numpy']):
+                    out.append(case(fn, be, DTYPES[(fi + ci) % len(DTYPES)], coords=ckd, attrs='nores'))
+            for si, (sn, shp) in enumerate(sorted(SHAPES.items())):
+                out.append(case(fn, 'numpy', ['float64', 'int32', 'float32', 'uint8'][si], shape=list(shp)))
+                if dask_ok:
+                    out.append(case(fn, 'dask', 'float64', shape=list(shp), chunkkind='onewide'))
+            for fill in ('allnan', 'allequal'):
+                out.append(case(fn, 'numpy', 'float64', fill=fill))
+                out.append(case(fn, 'numpy', 'int16', fill=fill, shape=[2, 2]))
+        else:
+            # quick: one combined case per function, plus a named chunking / a degenerate shape for a rotating quarter each
+            be = 'dask' if (dask_ok and (fi + off) % 2) else 'numpy'
+            ck = COORD_KINDS[(fi + off) % 3]
+            out.append(case(fn, be, ['float64', 'float32', 'int32', 'uint16'][(fi + off) % 4],
+                            layoutx=EXTRA_LAYOUTS[(fi + off) % 3],
+                            layoutpos=(list(range(npos)) + [None])[((fi + off) // 3) % (npos + 1)],
+                            coords=ck, attrs='nores' if ck != 'desc2' else ATTRS_KINDS[(fi + off) % 3],
+                            arrparams=True, named=bool(fi % 2)))
+            if dask_ok and (fi + off) % 4 == 0:
+                out.append(case(fn, 'dask', ['float64', 'int16'][(fi // 4) % 2], chunkkind=CHUNK_KINDS[((fi + off) // 4) % 5],
+                                chunkpos=((fi + off) // 4) % max(1, nr)))
+            if (fi + off) % 4 == 2:
+                sn = sorted(SHAPES)[((fi + off) // 4) % 4]
+                out.append(case(fn, 'numpy', ['float64', 'int32'][(fi // 4) % 2], shape=list(SHAPES[sn]),
+                                fill=[None, 'allnan', 'allequal'][((fi + off) // 4) % 3]))
+    # call sequences over derived rasters (slices, re-coordinated, shallow copies, casts, previous outputs)
+    if only is None:
+        for i in range(40 if full else 4):
+            seq = []
+            for _ in range(rng.randint(2, 4)):
+                fn = rng.choice(SEQ_FUNCS)
+                seq.append((fn, rng.randrange(reg[fn]['variants']), rng.choice(DERIVES + [None])))
+            out.append(dict(kind='sequence', fn='sequence', backend=rng.choice(BACKENDS), dtype=rng.choice(DTYPES),
+                            layout=rng.choice(LAYOUTS), attrs=rng.choice(ATTRS_KINDS), sequence=seq, dims='yx',
+                            dataseed=rng.randrange(1 << 30)))
+    return out
 
 
 def run_pool(cases, workers=6):
@@ -2268,6 +2507,11 @@ def evaluate(ctx, obs, pred):
                 ctx.violation('oracle', 'call sequence %s: after call #%d (%s) the shared input raster changed: %s' % (
                     [s[0] for s in c['sequence']], i + 1, st['fn'], '; '.join(st['modified'])), c, key=key)
                 break
+            if st.get('derived_modified') and st['fn'] != 'viewshed.viewshed':
+                ctx.violation('oracle', 'call sequence %s: call #%d (%s) modified the raster it was given (derived by %s from the '
+                                        'shared raster): %s' % ([s[0] for s in c['sequence']], i + 1, st['fn'], st.get('derive'),
+                                                                '; '.join(st['derived_modified'])), c)
+                break
         return
     fn = c['fn'].split('#')[0]          # registry keys may carry a '#variant' suffix (zonal.crosstab#3d)
     spec = RASTER_FUNCS.get(fn, {})
@@ -2276,6 +2520,15 @@ def evaluate(ctx, obs, pred):
     ctx.count('%s/%s/%s' % (c['fn'].split('.')[-1], c['backend'], 'error' if obs['error'] else 'ok'))
     ctx.count('attrs/%s' % c.get('attrs', 'res'))
     ctx.count('dims/%s' % c.get('dims', 'yx'))
+    for k_, lab in (('layoutx', 'extra layout'), ('chunkkind', 'chunking'), ('coords', 'coordinates'), ('fill', 'fill')):
+        if c.get(k_):
+            ctx.count('%s/%s' % (lab, c[k_]))
+    if c.get('shape'):
+        ctx.count('shape/%dx%d' % tuple(c['shape']))
+    if c.get('layoutx'):
+        ctx.count('extra layout at argument/%s' % ('all' if c.get('layoutpos') is None else '#%d' % c['layoutpos']))
+    if c.get('arrparams'):
+        ctx.count('list parameters/as ndarray')
     if c.get('chunkpos') is not None:
         ctx.count('differently chunked argument/#%d' % c['chunkpos'])
     ctx.count('name=/%s' % ('given' if c.get('named') else 'default'))
@@ -2389,7 +2642,8 @@ def search(ctx):
 
 
 def replay_case(ctx, case):
-    case = {k: v for k, v in case.items() if k in ('kind', 'fn', 'backend', 'dtype', 'layout', 'variant', 'dataseed', 'sequence', 'attrs', 'named', 'mix', 'dims', 'chunkpos')}
+    case = {k: v for k, v in case.items() if k in ('kind', 'fn', 'backend', 'dtype', 'layout', 'variant', 'dataseed', 'sequence', 'attrs', 'named', 'mix', 'dims', 'chunkpos', 'layoutx', 'layoutpos',
+                                                   'chunkkind', 'shape', 'fill', 'coords', 'arrparams')}
     if 'sequence' in case and case.get('kind') == 'sequence':
         case['sequence'] = [tuple(x) for x in case['sequence']]
     ctx.case(case)
